@@ -16,7 +16,7 @@ package node
 //@   modifies Pool, Bank
 //@   nopanic [C02.begin.nopanic] when (has(Pool) ==> get(Pool).TotalStorage == 1000000 * get(Pool).TotalPledged.Amount && get(Pool).TotalPledged.Amount >= 0
 //@         && get(Pool).TotalPledged.Denom == param(KeyBaseLine).Denom) && validDenom(param(KeyBaseLine).Denom)
-//@         && param(KeyBlockReward).Denom == "sao" && validDenom("sao")
+//@         && param(KeyBlockReward).Denom == "sao" && validDenom("sao") && decFromStr(param(KeyAPY)) >= 0
 //@   ensures [C08.mint.nopledge] old(has(Pool)) && old(get(Pool).TotalPledged.Amount) == 0 ==> get(Pool) == old(get(Pool)) && (forall a addr, d string :: bal(a, d) == old(bal(a, d)))
 //@   ensures [C08.mint.nopool] !old(has(Pool)) ==> !has(Pool) && (forall a addr, d string :: bal(a, d) == old(bal(a, d)))
 //@   ensures [C08.mint.only] forall a addr, d string :: a != moduleAddr("node") ==> bal(a, d) == old(bal(a, d))
